@@ -279,7 +279,14 @@ impl<'a> World<'a> {
             *self.st.probes.entry("build_against_stale_interface").or_insert(0) += 1;
         }
         // the real operation (possibly killed at syscall k)
-        let outdir = if build { "store" } else { "chk" };
+        // one `check` in three writes its interface into the store itself (`check --output
+        // store/P`): the store then holds P's new interface next to P's old core, which later
+        // builds and links have to cope with
+        let check_into_store = !build && entropy % 3 == 0;
+        if check_into_store {
+            *self.st.probes.entry("check_wrote_its_interface_into_the_store").or_insert(0) += 1;
+        }
+        let outdir = if build || check_into_store { "store" } else { "chk" };
         let before: Vec<(String, Option<Vec<u8>>)> = [art_path(0, &name, false), art_path(0, &name, true)]
             .iter()
             .map(|pth| (pth.clone(), self.sb.read(pth)))
@@ -344,8 +351,8 @@ impl<'a> World<'a> {
                 }
             }
         }
-        if build {
-            self.last_written = before;
+        if build || check_into_store {
+            self.last_written = if build { before } else { before.into_iter().take(1).collect() };
             for pth in [art_path(0, &name, false), art_path(0, &name, true)] {
                 self.note_generation(&pth);
             }
